@@ -112,9 +112,28 @@ def check(seed, props):
     return out_all
 
 
+def record(seed, results):
+    """appends the outcome of `check` to <seed>/meta.json (field "evaluation")"""
+    mp = os.path.join(seed, "meta.json")
+    meta = json.load(open(mp))
+    rc, head = sh("git -C %s log --format=%%h -1" % VERIF)
+    ev = [e for e in meta.get("evaluation", []) if e.get("check") not in {r.get("check") for r in results}]
+    for r in results:
+        ev.append({"check": r.get("check"), "cmd": "./check %s --tier quick (VERIF_REPO = scratch worktree with the patch applied)" % r.get("check"),
+                   "verif_commit": head.strip(), "rc": r.get("rc"), "violation_lines": r.get("violations"),
+                   "invariants": r.get("invariants"), "known_finding_lines": r.get("known"), "infra": r.get("infra"),
+                   "wall_s": r.get("wall_s"), "caught": r.get("rc") == 1})
+    meta["evaluation"] = sorted(ev, key=lambda e: e["check"])
+    json.dump(meta, open(mp, "w"), indent=1)
+
+
 if __name__ == "__main__":
     mode, seed = sys.argv[1], sys.argv[2]
     if mode == "confirm":
         print(json.dumps(confirm(seed), indent=1))
     else:
-        print(json.dumps(check(seed, sys.argv[3:]), indent=1))
+        args = [a for a in sys.argv[3:] if a != "--record"]
+        res = check(seed, args)
+        if "--record" in sys.argv:
+            record(seed, res)
+        print(json.dumps(res, indent=1))
